@@ -71,6 +71,29 @@ CHECK_DEADLOCK FALSE
     return res, progs
 
 
+def gen_jump_sweep(ctx, aligns):
+    """EvmJumpGen: PUSH width x alignment x position of a 0x5b data byte, JUMP / taken JUMPI to exactly that byte."""
+    cfg = """SPECIFICATION JSpec
+CONSTANTS
+  WB = 32
+  StackLimit = 1024
+  Alphabet = {0}
+  MaxLen = 1
+  Datas <- GenDatasJ
+  Widths = {%s}
+  Aligns = {%s}
+INVARIANTS JInv JDump
+CHECK_DEADLOCK FALSE
+""" % (", ".join(str(i) for i in range(1, 33)), ", ".join(str(i) for i in aligns))
+    res = ctx.tlc("EvmJumpGen", cfg_text=cfg, workers=4, timeout=1500)
+    progs = []
+    for raw in ctx.tlc_lines(res, "PROG"):
+        progs.append(json.loads(raw.strip()[1:-1].replace('\\"', '"')))
+    if not progs:
+        raise Inconclusive("EvmJumpGen produced no programs")
+    return res, progs
+
+
 def run(ctx):
     quick = ctx.quick()
     # 1+2. design level, concurrently with the harness build
@@ -89,10 +112,13 @@ def run(ctx):
     jobs.append(lambda: built.setdefault("drv", ctx.build("c10")))
     gen = {}
     jobs.append(lambda: gen.setdefault("r", gen_programs(ctx, 30 if quick else 600, 14)))
+    jobs.append(lambda: gen.setdefault("j", gen_jump_sweep(ctx, range(8) if quick else range(64))))
     threads(jobs)
     drv = built["drv"]
     genres, progs = gen["r"]
-    log("EvmGen: %d programs" % len(progs))
+    jumpres, jprogs = gen["j"]
+    log("EvmGen: %d programs; EvmJumpGen: %d jump-destination cases" % (len(progs), len(jprogs)))
+    progs = progs + jprogs
 
     # 4. real runs
     shards = 4 if quick else 16
@@ -149,10 +175,11 @@ def run(ctx):
             if e["event"] in ("Step", "Vector", "Final") and e.get("op", 1) in WORD_OPS + [0] and len(samples) < 4:
                 e.pop("auxin", None)
                 samples.append(e)
-    states = sum(r["distinct"] for r in mc.values()) + genres["generated"]
+    states = sum(r["distinct"] for r in mc.values()) + genres["generated"] + jumpres["distinct"]
     coverage = {
         "states": states,
-        "transitions": sum(r["generated"] for r in mc.values()) + genres["generated"],
+        "transitions": sum(r["generated"] for r in mc.values()) + genres["generated"] + jumpres["generated"],
+        "jump_destination_sweep_cases": len(jprogs),
         "traces_validated_against_impl": tot["programs"],
         "events_validated": total_events,
         "interpreter_steps_recorded": tot["steps"],
